@@ -192,26 +192,32 @@ def nodeImports (o : Opts) (a : Attrs) (opt : Bool) (nKids : Nat) (keyImports : 
 def keyReached (a : Attrs) : Bool := !a.isList && !a.isSet && a.isDict
 
 mutual
-/-- `DataType.imports` (own table, then `dict_key.imports`). `reached` = `type_hint` has been
-evaluated on this node, so `is_optional` is the updated flag. -/
-def ownImports (o : Opts) (reached : Bool) : DT → List Imp
+/-- `DataType.imports` (own table, then `dict_key.imports`). `fl t` = the value of `t.is_optional`
+once `type_hint` has been evaluated on `t`; `reached` = it has been evaluated on this node. -/
+def ownImportsWith (fl : DT → Bool) (o : Opts) (reached : Bool) : DT → List Imp
   | .mk a key kids =>
-    nodeImports o a (if reached then (typeHint o (.mk a key kids)).2 else a.isOptional) kids.length
-      (ownImportsO o (reached && keyReached a) key)
-def ownImportsO (o : Opts) (reached : Bool) : Option DT → List Imp
+    nodeImports o a (if reached then fl (.mk a key kids) else a.isOptional) kids.length
+      (ownImportsWithO fl o (reached && keyReached a) key)
+def ownImportsWithO (fl : DT → Bool) (o : Opts) (reached : Bool) : Option DT → List Imp
   | none => []
-  | some k => ownImports o reached k
+  | some k => ownImportsWith fl o reached k
 end
 
 mutual
 /-- `DataType.all_imports`: children first, then the node's own -/
-def allImports (o : Opts) (reached : Bool) : DT → List Imp
+def allImportsWith (fl : DT → Bool) (o : Opts) (reached : Bool) : DT → List Imp
   | .mk a key kids =>
-    allImportsL o (reached && a.ty.isEmpty) kids ++ ownImports o reached (.mk a key kids)
-def allImportsL (o : Opts) (reached : Bool) : List DT → List Imp
+    allImportsWithL fl o (reached && a.ty.isEmpty) kids ++ ownImportsWith fl o reached (.mk a key kids)
+def allImportsWithL (fl : DT → Bool) (o : Opts) (reached : Bool) : List DT → List Imp
   | [] => []
-  | t :: ts => allImports o reached t ++ allImportsL o reached ts
+  | t :: ts => allImportsWith fl o reached t ++ allImportsWithL fl o reached ts
 end
+
+/-- the flag `type_hint` leaves behind -/
+def flagAfter (o : Opts) (t : DT) : Bool := (typeHint o t).2
+
+def ownImports (o : Opts) (reached : Bool) (t : DT) : List Imp := ownImportsWith (flagAfter o) o reached t
+def allImports (o : Opts) (reached : Bool) (t : DT) : List Imp := allImportsWith (flagAfter o) o reached t
 
 /-- the import part of `DataModelFieldBase.imports` (`use_annotated`/`Field` imports belong to the
 field classes and are outside this model) -/
